@@ -15,7 +15,7 @@ func init() {
 		ID:          "C20",
 		Explanation: "for every method of every type implementing solver.Interface: (a) the channel parameter is closed exactly once on every path on which it is non-nil and never sent on while nil or after the close, nor handed to a goroutine; (b) on every non-nil path the value returned is the last value sent; (c) slices sent are freshly allocated per send and not written afterwards; (d) a forwarder drains its inner channel completely and never closes it itself. These hold for every consumer speed and schedule because they do not depend on the consumer.",
 		NotDecided:  "validity of each delivered model and strict decrease of the costs along the stream (depend on the search).",
-		Rules:       []ruleFn{ruleR20_1_2, ruleR20_3, ruleR20_4},
+		Rules:       []ruleFn{ruleR20_1_2, ruleR20_3, ruleR20_4, ruleR3_5},
 		Fixtures:    []func(*World) []string{fixtureR20},
 	})
 }
